@@ -103,6 +103,14 @@ pub struct Sel {
     pub counts: bool,
     /// BACKRANK (valid boards of the family)
     pub backrank: bool,
+    /// REACH from n evenly spaced seeds only (0 = all 22; 11 = one of each mirror pair)
+    pub reach_take: usize,
+    /// PAWNCAP2 restricted to 4 of the 16 own-king squares
+    pub pawncap2_light: bool,
+    /// PROMOROW
+    pub promorow: bool,
+    /// HEMMED: an enemy slider hemmed in by its own men, own king next to them
+    pub hemmed: bool,
     /// BOXK: cornered king with at most one legal move; 1 = corners a1 / h8, 2 = all four
     pub boxk: Option<u8>,
 }
@@ -129,8 +137,10 @@ impl Sel {
                 checkpin: Some(3),
                 castle2: true,
                 counts: true,
+                promorow: true,
                 boxk: Some(2),
                 backrank: true,
+                hemmed: true,
                 ..Default::default()
             }
         } else {
@@ -151,8 +161,10 @@ impl Sel {
                 checkpin: Some(1),
                 castle2: true,
                 counts: true,
+                promorow: true,
                 boxk: Some(1),
                 backrank: true,
+                hemmed: true,
                 ..Default::default()
             }
         }
@@ -248,7 +260,12 @@ pub fn run_universes(run: &mut Run, sel: &Sel, disagree_idx: usize, check: PosCh
         });
     }
     if sel.pawncap2 {
-        run.par_shards("PAWNCAP2 (doubled pawns, two captures onto one file, +- enemy slider)", uni::PAWNCAP2_SHARDS, |ctx, sh| {
+        let light = sel.pawncap2_light;
+        run.par_shards(if light { "PAWNCAP2 (doubled pawns, two captures onto one file, +- enemy slider; own king on b2, f2, b6, f6)" } else { "PAWNCAP2 (doubled pawns, two captures onto one file, +- enemy slider)" }, uni::PAWNCAP2_SHARDS, |ctx, sh| {
+            let ok = sh / 2;
+            if light && !(file_of(ok) % 4 == 1 && rank_of(ok) % 4 == 1) {
+                return;
+            }
             uni::pawncap2(sh, &mut |p| visit(ctx, p, disagree_idx, check));
         });
     }
@@ -305,7 +322,12 @@ pub fn run_universes(run: &mut Run, sel: &Sel, disagree_idx: usize, check: PosCh
     }
     if let Some(d) = sel.reach {
         let cap = if run.thorough() { 30_000_000 } else { 3_000_000 };
-        let (states, capped) = reach_states(d, cap);
+        // reach_take = n: every (22 / n)-th seed (11: the unmirrored member of each pair)
+        let all_seeds = uni::seeds();
+        let step = if sel.reach_take == 0 { 1 } else { (all_seeds.len() / sel.reach_take).max(1) };
+        let picked: Vec<Pos> = all_seeds.iter().cloned().step_by(step).collect();
+        let nseeds = picked.len();
+        let (states, capped) = reach_states_from(&picked, d, cap);
         if capped {
             run.exhaustive = false;
             run.caps.push(format!(
@@ -314,9 +336,11 @@ pub fn run_universes(run: &mut Run, sel: &Sel, disagree_idx: usize, check: PosCh
             ));
         }
         let maxd = states.iter().map(|s| s.1).max().unwrap_or(0);
-        let chunks: Vec<&[(Pos, u32)]> = states.chunks(2048).collect();
+        // at least 256 shards where the states allow it: the per-state work of some properties is heavy
+        let csize = (states.len() / 256).clamp(8, 2048);
+        let chunks: Vec<&[(Pos, u32)]> = states.chunks(csize).collect();
         run.par_shards(
-            &format!("REACH({}) from {} seeds, {} states, max depth {}", d, uni::seeds().len(), states.len(), maxd),
+            &format!("REACH({}) from {} seeds, {} states, max depth {}", d, nseeds, states.len(), maxd),
             chunks.len(),
             |ctx, sh| {
                 for (p, _) in chunks[sh] {
@@ -386,9 +410,14 @@ pub fn run_universes(run: &mut Run, sel: &Sel, disagree_idx: usize, check: PosCh
             uni::boxk(shards[j / uni::KZONE_PARTS], j % uni::KZONE_PARTS, &mut |p| visit(ctx, p, disagree_idx, check));
         });
     }
-    if sel.counts {
+    if sel.promorow {
         run.par_shards("PROMOROW (every subset of own seventh-rank pawns x every subset of enemy knights on the eighth)", 32, |ctx, sh| {
             uni::promorow((sh / 16) as u8, sh % 16, &mut |p| visit(ctx, p, disagree_idx, check));
+        });
+    }
+    if sel.hemmed {
+        run.par_shards("HEMMED (an enemy slider whose neighbours in its move directions are all its own men, own king next to them)", uni::HEMMED_SHARDS, |ctx, sh| {
+            uni::hemmed(sh, &mut |p| visit(ctx, p, disagree_idx, check));
         });
     }
     if sel.backrank {
